@@ -10,9 +10,10 @@ Correspondence on random respondent-level surveys with heavy, uneven column miss
   (b) the respondent-level value 100 * (w(row,col)/w(ok_row,col)) / (w(row)/w(ok_row)), computed
       from the answers regardless of the column answer, vs. the same output;
   (c) inserted subtotal rows / columns of column_index are NaN.
-The model is faithful to the code; for 3-D cubes whose table dimension has a missing category
-before a valid one (b) fails while (a) passes -- the known finding C16-3d-baseline-wrong-table
-(theorem C16_rank_vs_offset_refuted); everything else must agree with both.
+The model is faithful to the code.  3-D cubes whose table dimension has a missing category before
+a valid one were the genuine defect C16-3d-baseline-wrong-table (baseline taken from the wrong
+table), repaired in /repo; 35% of the generated 3-D cases have that shape and (a) and (b) must
+both agree on them (theorem C16_former_witness is the minimal one, run first).
 """
 import json
 import random
@@ -222,7 +223,7 @@ def run(tier, seed):
         for f in fails:
             rep.violation("impl-subtotals", cu.replayable(case), f, {"what": f.get("what")})
     rep.cov["rule"] = (
-        "cases from random.Random(seed+16): the minimal witness of the known finding, then surveys of "
+        "cases from random.Random(seed+16): the minimal witness of the repaired finding, then surveys of "
         "0..30 respondents over cat / cat_date / mr / enum (and a few array) variables, 2-D and 3-D, "
         "weighted (dyadic, zero) or not, 60% with heavy column missingness skewed by row, 35% of the 3-D "
         "cases with a missing table category before a valid one; plus CAT/MR slices with subtotal "
@@ -252,9 +253,6 @@ def replay(path):
         io, terms = build(case)
         results, _ = core.run_coq_cases(PID, cu.IMPORTS, [t for (_k, t) in terms], tag="replay")
         fails = compare(case, io, terms, results)
-        # the known finding is reported, not failed, on replay as well
-        fails = [f for f in fails
-                 if not (f.get("oracle") == "survey" and f.get("rank_is_offset") is False)]
     for f in fails:
         print("REPLAY still fails:", json.dumps(core.jsonable(f))[:600])
     if not fails:
